@@ -295,6 +295,8 @@ def gen_e2e(rng, mode=None):
                 ops.append([dt] + op)
     ops.append([rng.choice([0, 100, 3000]), 'up'])
     ops.append([0, 'sync'])
+    if rng.random() < 0.08:          # a failed restore of the slave devices before this slave is added
+        job['pre_restore'] = rng.choice([[{'scheme': 'http'}], [{'scheme': 'http', 'host': 'sim', 'port': 'eighty', 'path': '/'}]])
     return job
 
 
